@@ -32,6 +32,8 @@ pub enum Variant {
     RequestError,
     /// get_utxos / get_balance: min_confirmations too large; headers: end < start.
     RequestError2,
+    /// get_utxos: malformed page blob / page for an unknown tip; others as RequestError.
+    RequestError3,
 }
 
 #[derive(Clone, Copy, Debug, Serialize, Deserialize, PartialEq, Eq)]
@@ -152,7 +154,7 @@ impl Property for C16 {
                 2 => Just(Endpoint::FeePercentiles),
                 2 => Just(Endpoint::SendTransaction),
             ],
-            prop_oneof![3 => Just(Variant::Ok), 1 => Just(Variant::RequestError), 1 => Just(Variant::RequestError2)],
+            prop_oneof![6 => Just(Variant::Ok), 2 => Just(Variant::RequestError), 2 => Just(Variant::RequestError2), 1 => Just(Variant::RequestError3)],
             any::<u8>(),
             any::<u64>(),
             prop_oneof![4 => Just(Attach::Plenty), 2 => Just(Attach::ExactlyMaximum), 2 => Just(Attach::OneBelowMaximum), 1 => Just(Attach::Zero), 1 => (1u32..1000).prop_map(Attach::Above)],
@@ -271,13 +273,17 @@ impl Property for C16 {
                     let req = GetUtxosRequest {
                         address: if c.variant == Variant::RequestError { "nonsense".into() } else { addr.clone() },
                         network: nr,
-                        filter: if c.variant == Variant::RequestError2 { Some(UtxosFilterInRequest::MinConfirmations(1000)) } else { None },
+                        filter: match c.variant {
+                            Variant::RequestError2 => Some(UtxosFilterInRequest::MinConfirmations(1000)),
+                            Variant::RequestError3 => Some(UtxosFilterInRequest::Page(serde_bytes::ByteBuf::from(vec![7u8; if c.payload_len % 2 == 0 { 72 } else { c.payload_len as usize % 100 }]))),
+                            _ => None,
+                        },
                     };
                     if is_query { can::get_utxos_query(req).is_err() } else { can::get_utxos(req).is_err() }
                 }
                 Endpoint::GetBalance | Endpoint::GetBalanceQuery => {
                     let req = GetBalanceRequest {
-                        address: if c.variant == Variant::RequestError { "nonsense".into() } else { addr.clone() },
+                        address: if matches!(c.variant, Variant::RequestError | Variant::RequestError3) { "nonsense".into() } else { addr.clone() },
                         network: nr,
                         min_confirmations: if c.variant == Variant::RequestError2 { Some(1000) } else { None },
                     };
@@ -286,7 +292,7 @@ impl Property for C16 {
                 Endpoint::GetBlockHeaders => {
                     let req = match c.variant {
                         Variant::Ok => GetBlockHeadersRequest { start_height: 0, end_height: None, network: nr },
-                        Variant::RequestError => GetBlockHeadersRequest { start_height: tip + 5, end_height: None, network: nr },
+                        Variant::RequestError | Variant::RequestError3 => GetBlockHeadersRequest { start_height: tip + 5, end_height: None, network: nr },
                         Variant::RequestError2 => GetBlockHeadersRequest { start_height: 2, end_height: Some(1), network: nr },
                     };
                     can::get_block_headers(req).is_err()
